@@ -552,7 +552,21 @@ def run_case(prop, name, hint, confkw, tier, src, props=None):
         out = CaseOut(name, confkw)
         try:
             g = generate(hint, confkw)
-            if g.error is not None:
+            if g.error is not None and type(g.error).__name__.startswith('_'):
+                # not "beartype rejects this hint" but an internal (underscore-prefixed) error such
+                # as generated code that does not compile: every object, conforming ones included,
+                # is then answered with a non-violation exception
+                payload = {'property': prop, 'kind': 'side', 'program': 'tester', 'hint': src, 'confkw': confkw,
+                           'obj': {'c': 'NoneType'}, 'draw': 0}
+                path = write_replay(prop, payload)
+                from .replay import replay_subprocess
+                ok, detail = replay_subprocess(path)
+                if ok:
+                    out.findings.append({'kind': 'internal_error', 'program': 'tester', 'label': 'code generation fails with an internal error',
+                                         'replay': path, 'detail': detail[:300], 'hint': out.name, 'confkw': out.confkw})
+                else:
+                    out.inconclusive.append(f'internal error {type(g.error).__name__} did not reproduce: {detail[:200]}')
+            elif g.error is not None:
                 out.skipped = f'{type(g.error).__name__}: {str(g.error)[:120]}'
             else:
                 props[prop](g, tier, out, src)
